@@ -37,7 +37,6 @@ def fsOf (es : Entries) : Fs :=
 
 def outJson : Outcome → Json
   | .urlDecodeError => Json.mkObj [("out", "urldecode")]
-  | .unicodeEncodeError => Json.mkObj [("out", "unicodeencode")]
   | .notFound => Json.mkObj [("out", "notfound")]
   | .redirect => Json.mkObj [("out", "redirect")]
   | .isADirectory p => Json.mkObj [("out", "isdir"), ("path", cod p)]
